@@ -1376,6 +1376,22 @@ func c09Reopen(dir string, seed int64) {
 				fail("c09-content", fmt.Sprintf("content changed by close / read-only re-open after %d operations\n before: %s\n after : %s (%v)", i+1, before.Text, c.Text, err), nil)
 				return
 			}
+			// ... and through a caller-opened read-only handle (OpenReadDB)
+			if sdb, err := sql.Open("sqlite3", "file:"+path+"?mode=ro&_busy_timeout=5000"); err == nil {
+				rdb, err := redka.OpenReadDB(sdb, nil)
+				if err != nil {
+					sdb.Close()
+					fail("c09-reopen", fmt.Sprintf("re-open through OpenReadDB on a read-only handle after %d operations: %v", i+1, err), nil)
+					return
+				}
+				c3, err := hx.ContentOfDB(rdb)
+				rdb.Close()
+				sdb.Close()
+				if err != nil || c3.Text != before.Text {
+					fail("c09-content", fmt.Sprintf("content changed by close / OpenReadDB re-open after %d operations\n before: %s\n after : %s (%v)", i+1, before.Text, c3.Text, err), nil)
+					return
+				}
+			}
 			rw, err := redka.Open(path, nil)
 			if err != nil {
 				fail("c09-reopen", "re-open (rw): "+err.Error(), nil)
@@ -1693,11 +1709,20 @@ func startBgLoad(dir, name string, opts *redka.Options, total int, expired func(
 		return nil, err
 	}
 	b := &bgRun{x: x, name: name, opened: time.Now(), stop: make(chan struct{})}
+	if strings.HasPrefix(name, "flushed-") {
+		// the database is flushed once before anything is stored in it
+		_ = x.DB.Str().Set("before-the-flush", "v")
+		_, _ = x.DB.Hash().Set("before-the-flush-h", "f", "v")
+		if err := x.DB.Key().DeleteAll(); err != nil {
+			return nil, err
+		}
+	}
 	b.live, b.dead = populate(x, total, expired)
 	// make database/sql replace the read-write connection before the tick (a transaction whose
 	// context is cancelled while it runs): the reclamation must work on the new connection as well
 	// (not on a caller-opened handle: there the caller is responsible for per-connection settings)
-	if !oneHandle {
+	// (nor on the flushed handle: it is the connection that did the flush that has to do the reclamation)
+	if !oneHandle && !strings.HasPrefix(name, "flushed-") {
 		ctx, cancel := context.WithCancel(context.Background())
 		_ = x.DB.UpdateContext(ctx, func(tx *redka.Tx) error {
 			_ = tx.Str().Set("cancelled-1", "1")
@@ -1880,6 +1905,12 @@ func runC20(seed int64, n int, long bool) {
 		fail("harness", err.Error(), nil)
 		return
 	}
+	// ... one that was flushed once right after it was opened
+	bgG, err := startBgLoad(dir, "flushed-once", nil, 300, func(i int) bool { return i%2 == 0 }, false)
+	if err != nil {
+		fail("harness", err.Error(), nil)
+		return
+	}
 	// ... and one that nobody touches between its population and the tick (an idle minute)
 	bgF, err := startBgLoad(dir, "opendb-idle-handle", nil, 300, func(i int) bool { return i%2 == 0 }, false)
 	if err != nil {
@@ -1984,6 +2015,7 @@ func runC20(seed int64, n int, long bool) {
 	bgB.finish(limit)
 	bgE.finish(limit)
 	bgF.finish(limit)
+	bgG.finish(limit)
 	if !long || len(sum.Failures) > 0 {
 		return
 	}
